@@ -148,29 +148,39 @@ def main():
     print("baseline: failed", len(base["failed"]), "undecided", len(base["undecided"]), flush=True)
     n = 0
     stats = {"caught": 0, "undecided": 0, "survived": 0}
-    with open(out, "w") as fo:
-        for info, text in mutants(os.path.join("/repo/unyt", rel), fnames):
-            if n >= mx:
-                break
+    par = int(opts.get("par", "4"))
+    from concurrent.futures import ThreadPoolExecutor
+
+    def one(item):
+        info, text = item
+        d = tempfile.mkdtemp(prefix="mutc_")
+        try:
+            os.makedirs(os.path.join(d, "repo"))
+            shutil.copytree("/repo/unyt", os.path.join(d, "repo", "unyt"),
+                            ignore=shutil.ignore_patterns("__pycache__", "tests"))
+            open(os.path.join(d, "repo", "unyt", rel), "w").write(text)
+            r = run(os.path.join(d, "repo"))
+            newf = [f for f in r["failed"] if f not in base["failed"]]
+            newu = [u for u in r["undecided"] if u not in base["undecided"]]
+            verdict = "caught" if newf else ("undecided" if newu else "survived")
+            info.update({"verdict": verdict, "failed": newf[:3], "undecided": newu[:2]})
+            return info
+        finally:
+            shutil.rmtree(d, ignore_errors=True)
+
+    items = []
+    for item in mutants(os.path.join("/repo/unyt", rel), fnames):
+        if len(items) >= mx:
+            break
+        items.append(item)
+    with open(out, "w") as fo, ThreadPoolExecutor(par) as tp:
+        for info in tp.map(one, items):
             n += 1
-            d = tempfile.mkdtemp(prefix="mutc_")
-            try:
-                os.makedirs(os.path.join(d, "repo"))
-                shutil.copytree("/repo/unyt", os.path.join(d, "repo", "unyt"),
-                                ignore=shutil.ignore_patterns("__pycache__", "tests"))
-                open(os.path.join(d, "repo", "unyt", rel), "w").write(text)
-                r = run(os.path.join(d, "repo"))
-                newf = [f for f in r["failed"] if f not in base["failed"]]
-                newu = [u for u in r["undecided"] if u not in base["undecided"]]
-                verdict = "caught" if newf else ("undecided" if newu else "survived")
-                stats[verdict] += 1
-                info.update({"verdict": verdict, "failed": newf[:3], "undecided": newu[:2]})
-                fo.write(json.dumps(info) + "\n")
-                fo.flush()
-                print("%-9s %s:%d %-28s | %s" % (verdict, info["function"], info["line"], info["what"],
-                                                info["source_line"][:70]), flush=True)
-            finally:
-                shutil.rmtree(d, ignore_errors=True)
+            stats[info["verdict"]] += 1
+            fo.write(json.dumps(info) + "\n")
+            fo.flush()
+            print("%-9s %s:%d %-28s | %s" % (info["verdict"], info["function"], info["line"], info["what"],
+                                            info["source_line"][:70]), flush=True)
     print("TOTAL", n, stats)
 
 
